@@ -399,6 +399,9 @@ func Run(pkg string, codecs []Codec) error {
 			// byte strings derived from this encoding, decoded by both
 			for k := 0; k < 2; k++ {
 				b := mutate(rng, rb)
+				if i == 0 && k == 1 {
+					b = append(append([]byte{}, rb...), 0, 0, 0, 0) // always: the written-out form of an empty last field
+				}
 				d := M{"fn": "dec", "pkg": pkg, "type": c.Name, "bytes": Ints(b), "gen": decode(c, b, true), "ref": decode(c, b, false)}
 				if err := enc.Encode(d); err != nil {
 					return err
